@@ -34,6 +34,7 @@ CONSTANTS
   BatchName = %(name)s
   BatchRemote = %(remote)s
   OrderPos = %(pos)s
+  OrderKeys = %(okeys)s
   RattrSel = %(rattr)s
   GroupKinds = %(gkinds)s
   GroupOwn = %(gown)s
@@ -41,15 +42,16 @@ INVARIANTS %(invs)s
 CHECK_DEADLOCK FALSE
 '''
 BOTH = '{TRUE, FALSE}'
-DEFAULTS = dict(mod=1, maxspans=2, own=BOTH, name=BOTH, remote='{FALSE}', pos='{"first", "last"}', rattr='{1, 2, 3, 4}',
+DEFAULTS = dict(mod=1, maxspans=2, own=BOTH, name=BOTH, remote='{FALSE}', pos='{"first", "last"}',
+                okeys='{"parentId", "name", "localEndpoint", "remoteEndpoint", "tags"}', rattr='{1, 2, 3, 4}',
                 gkinds='{0, 1, 2}', gown=BOTH)
-INVS = 'TypeOK Export InvOutsideClasses InvCleanDecoderArray'
+INVS = 'TypeOK Export InvAccepted InvOutsideClasses InvCleanDecoderArray'
 
 # name -> (family, overrides)
 CONFIGS = {
     'quick': [
         ('zids', 'zids', {}),
-        ('zorders', 'zorders', {}),
+        ('zorders', 'zorders', dict(okeys='{"name", "localEndpoint", "remoteEndpoint", "tags"}')),
         ('zbatch2', 'zbatch', dict(maxspans=2)),
         ('zbatch3', 'zbatch', dict(maxspans=3, own='{FALSE}', name='{TRUE}')),
         ('zbig', 'zbig', dict(maxspans=2)),
@@ -96,8 +98,13 @@ def _cfg(sd, name, family, over, invs):
 
 def _model_check(sd, name, family, over, timeout):
     cfgp, d = _cfg(sd, name, family, over, INVS)
-    res = vlib.tlc(SPECDIR, 'MC_Spans.tla', os.path.basename(cfgp), workers=2, timeout=timeout, copy_extra=[cfgp],
-                   coverage=family in ('zbig', 'obig'))
+    for attempt in range(3):
+        res = vlib.tlc(SPECDIR, 'MC_Spans.tla', os.path.basename(cfgp), workers=2, timeout=timeout, copy_extra=[cfgp],
+                       coverage=family in ('zbig', 'obig'))
+        # a TLC process killed from outside (another check's timeout handler kills every TLC on the machine) ends without a verdict
+        if res['violated'] or 'Model checking completed' in res['out'] or attempt == 2:
+            break
+        vlib.tlc_cleanup(res)
     try:
         if res['violated']:
             raise vlib.Infra('TLC reports %s on Spans.tla (config %s): the mechanism breaks the statement outside the declared '
@@ -156,7 +163,10 @@ def _candidate(sd):
 
 
 def _signature(r, kind):
-    return '%s:%s|%s' % (r['proto'], r['framing'], kind)
+    """proto:framing|kind when the real code behaved exactly as the mechanism transcribed in Spans.tla predicts for the case (the
+    finding is a property of the documented mechanism); prefixed with `untranscribed|` when the real code also deviates from it."""
+    sig = '%s:%s|%s' % (r['proto'], r['framing'], kind)
+    return sig if not r.get('mech_diffs') and not r.get('crash') else 'untranscribed|' + sig
 
 
 def run(tier):
@@ -165,7 +175,7 @@ def run(tier):
     sd = vlib.scratch('c06')
     try:
         cfgs = CONFIGS[tier]
-        timeout = 200 if tier == 'quick' else 800
+        timeout = 400 if tier == 'quick' else 1200
         with concurrent.futures.ThreadPoolExecutor(max_workers=4) as ex:
             futs = [ex.submit(_model_check, sd, n, f, o, timeout) for n, f, o in cfgs]
             fc = ex.submit(_candidate, sd)
@@ -194,10 +204,18 @@ def run(tier):
         seeds = [seed] if tier == 'quick' else [seed, seed + 1]
         results = []
         for s in seeds:
+            casefile = allcases
+            if s != seed:
+                # second concretisation (other hostile values, routes, id spellings) of everything but the largest family
+                casefile = os.path.join(sd, 'cases_second.ndjson')
+                with open(casefile, 'w') as o:
+                    for line in open(allcases):
+                        if '"cfg": "zbatch3"' not in line:
+                            o.write(line)
             outp = os.path.join(sd, 'result_%d.ndjson' % s)
             env = dict(os.environ)
             env['TZ'] = 'UTC'
-            r = vlib.run_cmd([binp, 'run', '-cases', allcases, '-out', outp, '-seed', str(s), '-workers', '6'], timeout=1500, env=env)
+            r = vlib.run_cmd([binp, 'run', '-cases', casefile, '-out', outp, '-seed', str(s), '-workers', '6'], timeout=1500, env=env)
             if r.returncode != 0 or not os.path.exists(outp):
                 raise vlib.Infra('c06 driver failed: ' + (r.stdout + r.stderr)[-2500:])
             hdr = None
